@@ -509,8 +509,10 @@ func (vr *variableResolver) resolve(ctx *ExecutionContext) (*Value, error) {
 						}
 					}
 
-					if pv.IsNil() {
-						// A nil argument is the nil of the parameter's type
+					if argType == nil {
+						// The nil argument is the nil of the parameter's type (a nil pointer
+						// goes as what it is: handed to an interface parameter it keeps its
+						// type, like in Go)
 						parameters = append(parameters, reflect.Zero(fnArg))
 					} else {
 						parameters = append(parameters, reflect.ValueOf(pv.Interface()))
